@@ -26,6 +26,7 @@ func runC18(seed uint64, n int, tier string, outDir string) []*Stats {
 	// correspondence volume moderate and spend the time on the glue stream
 	piecesCases(r, n/2, cf, st)
 	hashCases(r, n/2, cf, st)
+	pathCases(r, n/2, cf, st)
 	nGlue := n
 	if nGlue < 40 {
 		nGlue = 40
